@@ -22,6 +22,7 @@ var yamlStrings = []string{
 	"'", "''", "\"", "\\", "a'b", "a\"b", "a\\b", "\\n", " ", "  ", " a", "a ", " a ", "\t", "a\tb", "\ta", "\n", "a\nb", "a\n", "\na", "a\n\nb", "a\r\nb", "\r", "a\n  b", "  a\nb",
 	"\u0085", "a\u0085b", "\u2028", "\u2029", "\uFEFF", "\uFEFFa", "\u0000", "a\u0000b", "\u0001", "\u001b[0m", "\u007f", "\u00a0", "é", "日本語", "\U0001F600", "a\U0001F600b", "\u00e9\n\u00e9",
 	",]", ", }", "x{2,}", "[1,]", "a,]", "{\"a\":1,}", "---", "...", "--- a", "key: [1, 2]", "x: |\n  y", "multi\nline\ntext\n", "trailing colon:", "question? mark", "- - a", "a: - b", "<<: *a", "!!binary aGk=", "0.0", "-0", "00", "1e", "e1", "0x", "++1", "1.2.3", "1,000", "١٢٣",
+	"rate: 1e+06\nburst: 5", "- 2.5e+07\n- x", "5 - 1e+06", "n: 1e+06", "a: 0x10\nb: 010", "x: true\ny: null\n", "all:\n\techo hi\n", "\tindented by a tab\nnext", "key: |\n  nested block",
 	"..", ".", "--", ".-", "-.", "....", "-.-", ".. ..", "--.", "-- -", "_", "__", "~~", "=", "==", "::", "//", "\\\\", "##",
 }
 
@@ -103,8 +104,14 @@ func c16Carrier(c *mon.Ctx, v any) {
 		}
 	}
 	// (i) the same document in YAML, written by the independent emitter
-	for _, st := range []ref.YamlStyle{ref.YBlockDouble, ref.YBlockSingle, ref.YFlowDouble, ref.YBlockPlain} {
+	for _, st := range []ref.YamlStyle{ref.YBlockDouble, ref.YBlockSingle, ref.YFlowDouble, ref.YBlockPlain, ref.YBlockLiteral} {
 		y := ref.YamlEmit(v, st)
+		if st == ref.YBlockLiteral {
+			if !strings.Contains(y, ": |2") && !strings.Contains(y, "- |2") {
+				continue // nothing in this document is written as a block scalar
+			}
+			c.Feature("literal_block_scalars_read")
+		}
 		c.Event()
 		c.Feature("emitter_style:" + st.String())
 		extra := map[string]any{"yaml": y, "style": st.String()}
@@ -172,7 +179,7 @@ func init() {
 		Rule: "documents over a table of ~190 hostile strings (every YAML 1.1 spelling of booleans/null, number-like, dates, indicator characters, quotes, whitespace, control characters, NEL/LS/PS/BOM, multi-line, non-ASCII, non-BMP) used as values AND keys, integral and fractional numbers incl. 2^31, 2^53+-1, 2^63, 2^64, empty containers everywhere; " +
 			"each document is written as YAML by an independent emitter in four styles and must read equal to its JSON form (reference canon, jd Equals both ways, empty diff); jd's Yaml()/Json() output must read back equal; CLI translations and -yaml diff/patch must preserve content; " +
 			"non-trivial = every document; distinct = distinct JSON texts",
-		Floors: map[string]int{"yaml_roundtrip_ok": 15000, "json_roundtrip_ok": 15000, "emitter_style:block/plain-when-safe": 15000, "hostile_string_as_key": 5000, "cli_translations": 300, "cli_yaml_diff_patch": 100, "cli_carriers_under_loose_flags": 100, "integer_literals": 20},
+		Floors: map[string]int{"yaml_roundtrip_ok": 15000, "json_roundtrip_ok": 15000, "emitter_style:block/plain-when-safe": 15000, "hostile_string_as_key": 5000, "cli_translations": 300, "cli_yaml_diff_patch": 100, "cli_carriers_under_loose_flags": 100, "literal_block_scalars_read": 300, "integer_literals": 20},
 		Assumptions: []string{
 			"JSON documents with string keys only; YAML features with no JSON counterpart (tags, non-string keys, anchors) are outside the property",
 			"the YAML side of (i) comes from the harness's own emitter (ref.YamlEmit), never from yaml.v2's writer; reading JSON text through the YAML reader is not part of the property",
